@@ -45,10 +45,15 @@ type sched struct {
 	rdRel    chan struct{}
 	rdActive bool // a reader session is open: ungated contexts park at part gates
 	lastRdGate string // op that continues the parked session: RdOpen | RdRead
+
+	slowCh     chan msg      // slow put goroutine -> driver
+	slowRel    chan struct{} // driver -> slow put
+	slowActive bool          // a PutObject is parked inside its write transaction
 }
 
 func newSched() *sched {
-	return &sched{gcCh: make(chan msg, 16), gcRel: make(chan struct{}), rdCh: make(chan msg, 16), rdRel: make(chan struct{})}
+	return &sched{gcCh: make(chan msg, 16), gcRel: make(chan struct{}), rdCh: make(chan msg, 16), rdRel: make(chan struct{}),
+		slowCh: make(chan msg, 4), slowRel: make(chan struct{})}
 }
 
 type gcKeyT struct{}
@@ -143,8 +148,32 @@ func (g *gateStore) Stop(ctx context.Context) error  { return g.inner.Stop(ctx) 
 func (g *gateStore) Capabilities() partstore.Capabilities {
 	return partstore.CapabilitiesOf(g.inner)
 }
+// PutPart parks the slow put (marked context) before the part's bytes are
+// written: the part id is minted and the write transaction is open.
 func (g *gateStore) PutPart(ctx context.Context, tx database.Tx, id partstore.PartId, r io.Reader) error {
+	if ctx.Value(slowKey) != nil && !g.sc.free {
+		g.sc.slowCh <- msg{gate: "parked"}
+		<-g.sc.slowRel
+	}
 	return g.inner.PutPart(ctx, tx, id, r)
+}
+
+// gcNeedsLock reports whether the collector's next section opens a write
+// transaction (it would wait for a parked slow put).
+func (s *sched) gcNeedsLock() bool {
+	if !s.gcRunning {
+		return false
+	}
+	switch s.gcGate {
+	case "observed":
+		n, _ := s.gcKV[0].(int)
+		return n > 0
+	case "reconciled":
+		return true
+	case "candidates":
+		return len(s.gcKV[1].([]partstore.PartId)) > 0
+	}
+	return false
 }
 func (g *gateStore) GetPartIds(ctx context.Context, tx database.Tx) ([]partstore.PartId, error) {
 	return g.inner.GetPartIds(ctx, tx)
